@@ -36,6 +36,7 @@ theorem powMod_comm (g a b p : Nat) : powMod (powMod g a p) b p = powMod (powMod
 theorem onResPQ_some {Ct} (P : XP Ct) (cfg : CCfg) (t : CTape) (m : Msg Ct) (c : CState) (o : Msg Ct)
     (h : onResPQ P cfg t m = (c, some o)) :
     ∃ sn pq fps fp p q, m = .resPQ t.nonce sn pq fps ∧ selectKey cfg.keys fps = some fp ∧ pq ≤ pqMax ∧
+      (1 < pq ∧ P.isPrime pq = false) ∧
       P.factor pq = some (p, q) ∧ c = .waitDH sn ∧
       o = .reqDH t.nonce sn p q fp (P.rsaEnc fp
         ⟨cfg.temp, pq, p, q, t.nonce, sn, t.newNonce, cfg.dc, if cfg.temp then cfg.expiresIn else 0⟩ t.rsaPad) := by
@@ -52,11 +53,20 @@ theorem onResPQ_some {Ct} (P : XP Ct) (cfg : CCfg) (t : CTape) (m : Msg Ct) (c :
       · rename_i hpq
         split at h
         · simp at h
-        · rename_i p q hf
-          simp only [Prod.mk.injEq, Option.some.injEq] at h
-          refine ⟨sn, pq, fps, fp, p, q, ?_, hfp, by omega, hf, h.1.symm, h.2.symm⟩
-          have : n = t.nonce := by simpa using hn
-          rw [this]
+        · rename_i hcomp
+          split at h
+          · simp at h
+          · rename_i p q hf
+            simp only [Prod.mk.injEq, Option.some.injEq] at h
+            have hc : 1 < pq ∧ P.isPrime pq = false := by
+              constructor
+              · omega
+              · cases hp : P.isPrime pq
+                · rfl
+                · exact absurd (Or.inr hp) hcomp
+            refine ⟨sn, pq, fps, fp, p, q, ?_, hfp, by omega, hc, hf, h.1.symm, h.2.symm⟩
+            have : n = t.nonce := by simpa using hn
+            rw [this]
 
 theorem onDHParams_some {Ct} (P : XP Ct) (t : CTape) (sn : Bytes) (m : Msg Ct) (c : CState) (o : Msg Ct)
     (h : onDHParams P t sn m = (c, some o)) :
